@@ -131,6 +131,9 @@ func nthPerm(n, k int) []int {
 	for i := range items {
 		items[i] = i
 	}
+	if k == 0 || n > 12 {
+		return items
+	}
 	out := make([]int, 0, n)
 	f := 1
 	for i := 2; i < n; i++ {
